@@ -197,12 +197,9 @@ it
         final(self).arrays_ok(), final(self).rowval@.len() == old(self).rowval@.len(), final(vtoKKT)@.len() == old(vtoKKT)@.len(),
         // C11: the column vector occupies rows initrow.. of column initcol, as structural zeros, slots recorded in order
         final(self).colptr@ == old(self).colptr@.update(initcol as int, (old(self).colptr@[initcol as int] + old(vtoKKT)@.len()) as usize),
-        forall|i: int| 0 <= i < old(vtoKKT)@.len() ==> {
-            let dest = old(self).colptr@[initcol as int] + i;
-            &&& #[trigger] final(vtoKKT)@[i] == dest
-            &&& final(self).rowval@[dest] == initrow + i
-            &&& final(self).nzval@[dest] == f_zero()
-        },
+        forall|i: int| 0 <= i < old(vtoKKT)@.len() ==> #[trigger] final(vtoKKT)@[i] == old(self).colptr@[initcol as int] + i,
+        forall|i: int| 0 <= i < old(vtoKKT)@.len() ==> #[trigger] final(self).rowval@[old(self).colptr@[initcol as int] + i] == initrow + i,
+        forall|i: int| 0 <= i < old(vtoKKT)@.len() ==> #[trigger] final(self).nzval@[old(self).colptr@[initcol as int] + i] == f_zero(),
         forall|s: int| 0 <= s < old(self).rowval@.len() && !(old(self).colptr@[initcol as int] <= s < old(self).colptr@[initcol as int] + old(vtoKKT)@.len())
             ==> #[trigger] final(self).rowval@[s] == old(self).rowval@[s],
         forall|s: int| 0 <= s < old(self).rowval@.len() && !(old(self).colptr@[initcol as int] <= s < old(self).colptr@[initcol as int] + old(vtoKKT)@.len())
@@ -215,12 +212,9 @@ it
             self.arrays_ok(), self.rowval@.len() == old(self).rowval@.len(), self.rowval@.len() <= usize::MAX, initcol < self.colptr@.len(),
             old(self).colptr@[initcol as int] + old(vtoKKT)@.len() <= old(self).rowval@.len(), initrow + old(vtoKKT)@.len() <= usize::MAX,
             self.colptr@ == old(self).colptr@.update(initcol as int, (old(self).colptr@[initcol as int] + i_ctr) as usize),
-            forall|i: int| 0 <= i < i_ctr ==> {
-                let dest = old(self).colptr@[initcol as int] + i;
-                &&& #[trigger] vtoKKT@[i] == dest
-                &&& self.rowval@[dest] == initrow + i
-                &&& self.nzval@[dest] == f_zero()
-            },
+            forall|i: int| 0 <= i < i_ctr ==> #[trigger] vtoKKT@[i] == old(self).colptr@[initcol as int] + i,
+            forall|s: int| old(self).colptr@[initcol as int] <= s < old(self).colptr@[initcol as int] + i_ctr ==> #[trigger] self.rowval@[s] == initrow + (s - old(self).colptr@[initcol as int]),
+            forall|s: int| old(self).colptr@[initcol as int] <= s < old(self).colptr@[initcol as int] + i_ctr ==> #[trigger] self.nzval@[s] == f_zero(),
             forall|s: int| 0 <= s < old(self).rowval@.len() && !(old(self).colptr@[initcol as int] <= s < old(self).colptr@[initcol as int] + i_ctr)
                 ==> #[trigger] self.rowval@[s] == old(self).rowval@[s],
             forall|s: int| 0 <= s < old(self).rowval@.len() && !(old(self).colptr@[initcol as int] <= s < old(self).colptr@[initcol as int] + i_ctr)
@@ -2329,6 +2323,111 @@ pub open spec fn grid_ok(g: Seq<&[&CscMatrix<F>]>) -> bool {
     &&& forall|q: int, p: int| 0 <= q < g.len() && 0 <= p < g[0]@.len() ==> (#[trigger] g[q]@[p]).m == g[q]@[0].m
     &&& forall|q: int, p: int| 0 <= q < g.len() && 0 <= p < g[0]@.len() ==> (#[trigger] g[q]@[p]).n == g[0]@[p].n
 }
+
+
+// ---- general block concatenation (hvcat; hcat and vcat are its 1 x 2 and 2 x 1 cases) ----
+pub open spec fn hv_rs(g: Seq<&[&CscMatrix<F>]>, q: int) -> int decreases q { if q <= 0 { 0 } else { hv_rs(g, q - 1) + g[q - 1]@[0].m } }
+pub open spec fn hv_cs(g: Seq<&[&CscMatrix<F>]>, p: int) -> int decreases p { if p <= 0 { 0 } else { hv_cs(g, p - 1) + g[0]@[p - 1].n } }
+// entries of block column p in the block rows < q;  entries of all block columns < p
+pub open spec fn hv_colnnz(g: Seq<&[&CscMatrix<F>]>, p: int, q: int) -> int decreases q { if q <= 0 { 0 } else { hv_colnnz(g, p, q - 1) + g[q - 1]@[p].rowval@.len() } }
+pub open spec fn hv_base(g: Seq<&[&CscMatrix<F>]>, p: int) -> int decreases p { if p <= 0 { 0 } else { hv_base(g, p - 1) + hv_colnnz(g, p - 1, g.len() as int) } }
+// entries of local column l of block column p that come from the block rows < q;  sum of their column pointers
+pub open spec fn hv_cnt(g: Seq<&[&CscMatrix<F>]>, p: int, l: int, q: int) -> int decreases q { if q <= 0 { 0 } else { hv_cnt(g, p, l, q - 1) + pcnt(*g[q - 1]@[p], l) } }
+pub open spec fn hv_cps(g: Seq<&[&CscMatrix<F>]>, p: int, l: int, q: int) -> int decreases q { if q <= 0 { 0 } else { hv_cps(g, p, l, q - 1) + g[q - 1]@[p].colptr@[l] } }
+pub open spec fn hv_st(g: Seq<&[&CscMatrix<F>]>, p: int, l: int) -> int { hv_base(g, p) + hv_cps(g, p, l, g.len() as int) }
+// the same total, block row by block row (the order in which hvcat adds it up)
+pub open spec fn hv_rownnz(g: Seq<&[&CscMatrix<F>]>, q: int, p: int) -> int decreases p { if p <= 0 { 0 } else { hv_rownnz(g, q, p - 1) + g[q]@[p - 1].rowval@.len() } }
+pub open spec fn hv_tot(g: Seq<&[&CscMatrix<F>]>, q: int) -> int decreases q { if q <= 0 { 0 } else { hv_tot(g, q - 1) + hv_rownnz(g, q - 1, g[0]@.len() as int) } }
+pub open spec fn hv_pre(g: Seq<&[&CscMatrix<F>]>) -> bool {
+    &&& grid_ok(g)
+    &&& forall|q: int, p: int| 0 <= q < g.len() && 0 <= p < g[0]@.len() ==> bd_blk_ok(*#[trigger] g[q]@[p])
+    &&& hv_rs(g, g.len() as int) <= usize::MAX && hv_cs(g, g[0]@.len() as int) < usize::MAX && 2 * hv_base(g, g[0]@.len() as int) <= usize::MAX
+}
+pub open spec fn hv_post(g: Seq<&[&CscMatrix<F>]>, R: CscMatrix<F>) -> bool {
+    let nr = g.len() as int; let nc = g[0]@.len() as int;
+    &&& R.m == hv_rs(g, nr) && R.n == hv_cs(g, nc) && R.colptr@.len() == R.n + 1 && R.rowval@.len() == hv_base(g, nc) && R.nzval@.len() == hv_base(g, nc)
+    // column l of block column p starts after all earlier block columns and after the columns < l of every block of this block column
+    &&& forall|p: int, l: int| 0 <= p < nc && 0 <= l <= g[0]@[p].n ==> #[trigger] R.colptr@[hv_cs(g, p) + l] == hv_st(g, p, l)
+    // entry j (local column l) of block (q, p): after the entries of that column contributed by the block rows above, in order, rows shifted
+    &&& forall|q: int, p: int, l: int, j: int| 0 <= q < nr && 0 <= p < nc && #[trigger] g[q]@[p].in_col_u(j, l) ==> {
+            let d = hv_st(g, p, l) + hv_cnt(g, p, l, q) + (j - g[q]@[p].colptr@[l]);
+            0 <= d < R.rowval@.len() && R.rowval@[d] == g[q]@[p].rowval@[j] + hv_rs(g, q) && R.nzval@[d] == g[q]@[p].nzval@[j] }
+}
+// ---- arithmetic of the sums ----
+pub proof fn lemma_hv_mono(g: Seq<&[&CscMatrix<F>]>, a: int, b: int)
+    requires 0 <= a <= b,
+    ensures hv_rs(g, a) <= hv_rs(g, b), hv_cs(g, a) <= hv_cs(g, b), 0 <= hv_rs(g, a), 0 <= hv_cs(g, a),
+    decreases b,
+{ if a < b { lemma_hv_mono(g, a, b - 1); } else if a > 0 { lemma_hv_mono(g, a - 1, a - 1); } }
+pub proof fn lemma_hv_colnnz_mono(g: Seq<&[&CscMatrix<F>]>, p: int, a: int, b: int)
+    requires 0 <= a <= b,
+    ensures 0 <= hv_colnnz(g, p, a) <= hv_colnnz(g, p, b),
+    decreases b,
+{ if a < b { lemma_hv_colnnz_mono(g, p, a, b - 1); } else if a > 0 { lemma_hv_colnnz_mono(g, p, a - 1, a - 1); } }
+pub proof fn lemma_hv_base_mono(g: Seq<&[&CscMatrix<F>]>, a: int, b: int)
+    requires 0 <= a <= b,
+    ensures 0 <= hv_base(g, a) <= hv_base(g, b),
+    decreases b,
+{
+    if a < b { lemma_hv_base_mono(g, a, b - 1); lemma_hv_colnnz_mono(g, b - 1, 0, g.len() as int); }
+    else if a > 0 { lemma_hv_base_mono(g, a - 1, a - 1); lemma_hv_colnnz_mono(g, a - 1, 0, g.len() as int); }
+}
+// cnt(l) = cps(l + 1) - cps(l);  cps(0) = 0;  cps(w) = colnnz;  all monotone in q for well-formed blocks
+pub proof fn lemma_hv_cnt_cps(g: Seq<&[&CscMatrix<F>]>, p: int, l: int, q: int)
+    requires hv_pre(g), 0 <= p < g[0]@.len(), 0 <= q <= g.len(), 0 <= l < g[0]@[p].n,
+    ensures hv_cps(g, p, l, q) + hv_cnt(g, p, l, q) == hv_cps(g, p, l + 1, q), hv_cnt(g, p, l, q) >= 0, hv_cps(g, p, l, q) >= 0,
+    decreases q,
+{
+    if q > 0 {
+        lemma_hv_cnt_cps(g, p, l, q - 1);
+        let M = *g[q - 1]@[p];
+        assert(bd_blk_ok(M)); assert(M.n == g[0]@[p].n); assert(M.colptr@[l] <= M.colptr@[l + 1]);
+    }
+}
+pub proof fn lemma_hv_cps_ends(g: Seq<&[&CscMatrix<F>]>, p: int, q: int)
+    requires hv_pre(g), 0 <= p < g[0]@.len(), 0 <= q <= g.len(),
+    ensures hv_cps(g, p, 0, q) == 0, hv_cps(g, p, g[0]@[p].n as int, q) == hv_colnnz(g, p, q),
+    decreases q,
+{
+    if q > 0 {
+        lemma_hv_cps_ends(g, p, q - 1);
+        let M = *g[q - 1]@[p];
+        assert(bd_blk_ok(M)); assert(M.n == g[0]@[p].n);
+    }
+}
+pub proof fn lemma_hv_cnt_mono(g: Seq<&[&CscMatrix<F>]>, p: int, l: int, a: int, b: int)
+    requires hv_pre(g), 0 <= p < g[0]@.len(), 0 <= a <= b <= g.len(), 0 <= l < g[0]@[p].n,
+    ensures 0 <= hv_cnt(g, p, l, a) <= hv_cnt(g, p, l, b),
+    decreases b,
+{
+    if a < b {
+        lemma_hv_cnt_mono(g, p, l, a, b - 1);
+        let M = *g[b - 1]@[p]; assert(bd_blk_ok(M)); assert(M.n == g[0]@[p].n); assert(M.colptr@[l] <= M.colptr@[l + 1]);
+    } else { lemma_hv_cnt_cps(g, p, l, a); }
+}
+// column starts are nondecreasing inside a block column and end where the next block column begins
+pub proof fn lemma_hv_st_mono(g: Seq<&[&CscMatrix<F>]>, p: int, a: int, b: int)
+    requires hv_pre(g), 0 <= p < g[0]@.len(), 0 <= a <= b <= g[0]@[p].n,
+    ensures hv_st(g, p, a) <= hv_st(g, p, b), hv_st(g, p, 0) == hv_base(g, p), hv_st(g, p, g[0]@[p].n as int) == hv_base(g, p + 1),
+    decreases b - a,
+{
+    let nr = g.len() as int;
+    lemma_hv_cps_ends(g, p, nr);
+    if a < b { lemma_hv_st_mono(g, p, a, b - 1); lemma_hv_cnt_cps(g, p, b - 1, nr); }
+}
+// adding up block row by block row gives the same total as block column by block column
+pub proof fn lemma_hv_fubini(g: Seq<&[&CscMatrix<F>]>, q: int, p: int)
+    requires 0 <= q <= g.len(), 0 <= p <= g[0]@.len(),
+    ensures hv_part_rows(g, q, p) == hv_part_cols(g, q, p),
+    decreases q + p,
+{
+    if q > 0 && p > 0 { lemma_hv_fubini(g, q - 1, p); lemma_hv_fubini(g, q, p - 1); lemma_hv_fubini(g, q - 1, p - 1); }
+    else if q > 0 { lemma_hv_fubini(g, q - 1, p); }
+    else if p > 0 { lemma_hv_fubini(g, q, p - 1); }
+}
+// sum over the q x p top-left sub-grid, two ways
+pub open spec fn hv_part_rows(g: Seq<&[&CscMatrix<F>]>, q: int, p: int) -> int decreases q { if q <= 0 { 0 } else { hv_part_rows(g, q - 1, p) + hv_rownnz(g, q - 1, p) } }
+pub open spec fn hv_part_cols(g: Seq<&[&CscMatrix<F>]>, q: int, p: int) -> int decreases p { if p <= 0 { 0 } else { hv_part_cols(g, q, p - 1) + hv_colnnz(g, p - 1, q) } }
 
 // ---- fill_block: abstract cursor discipline
 impl CscMatrix<F> {
